@@ -49,6 +49,14 @@ CHECKS = {
             "relational: selection defects do not leak in; metrics over empty inputs and the label of a null group are unspecified; "
             "known findings match on the first feature family of the failing table cell",
             "DESIGN.md §4 C09"),
+    "C10": ("exploration",
+            "runtime monitoring: relational oracle (python sort/slice of the engine's own unordered selection) per storage tier",
+            "ORDER BY f [DESC] LIMIT n OFFSET m queries over int/float/string/datetime/nullable/core-timestamp keys with duplicate and "
+            "missing values, n and m around 0, 1, |R| and beyond, WHERE/FOR scopes, data split over 1-5 shards and memory / L0 / compacted / "
+            "restart layouts; checks monotonicity, membership, multiplicity, slice size and the key multiset of positions m..m+n; "
+            "OFFSET without LIMIT must be rejected.",
+            "ties arbitrary, nulls first or last accepted; scripted clock (hook) makes core timestamps distinct",
+            "DESIGN.md §4 C10"),
 }
 
 PENDING_REASON = "check not built yet in this session (see DESIGN.md §10 for the order); no claim is made"
